@@ -86,7 +86,6 @@ func genC05(t *rapid.T) Case {
 func propC05(c Case, o *Obs) error {
 	r := Exec(c, Monitors{M5: true, Probe: 7})
 	classify(o, c, r)
-	o.ClassIf(c.YieldOnWrite, "yield-on-write")
 	o.Nontrivial = r.ListChangedMidOp >= 2 || r.CrashAfterRename
 	return r.Violation
 }
